@@ -296,6 +296,7 @@ class Case:
         self.tables = None
         self.pre = None          # a path parsed right before the case (ambient history), bytes
         self.alias = False       # build equal sub-containers as one shared Go object
+        self.keyq = None         # (quote code point, key code points): the driver confirms path == Coq key_path
 
     def go_json(self):
         return json.dumps({'id': self.id, 'mode': self.mode, 'path_hex': hx(self.path),
@@ -330,8 +331,10 @@ class Case:
                  '(pf %s)' % ' '.join(t['pf']),
                  '(rx %s)' % ' '.join(t['rx']),
                  '(rm %s)' % ' '.join(t['rm']),
-                 '(docs %s)' % ' '.join(doc_sx(d) for d in self.docs),
-                 '(mode %s))' % self.mode]
+                 '(docs %s)' % ' '.join(doc_sx(d) for d in self.docs)]
+        if self.keyq:
+            parts.append('(keyq %d %s)' % (self.keyq[0], ' '.join(str(x) for x in self.keyq[1])))
+        parts.append('(mode %s))' % self.mode)
         return ' '.join(parts)
 
     def describe(self):
